@@ -69,7 +69,14 @@ impl TG<'_> {
                     let shift = rsub(base, c).filter(|s| small(*s));
                     if let Some(s) = shift {
                         let arg = if s.n == 0 { a } else if s.n > 0 { format!("{a} + {}", rtext(s)) } else { format!("{a} - {}", rtext(Rat { n: -s.n, d: s.d })) };
-                        return (format!("{name}({arg})"), val.map(|(n, d)| Rat { n, d }));
+                        let v = val.map(|(n, d)| Rat { n, d });
+                        // unary signs directly in front of the function (one unary chain in the flat form)
+                        return match self.rng.random_range(0..6) {
+                            0 => (format!("+{name}({arg})"), v),
+                            1 => (format!("-{name}({arg})"), v.map(|r| Rat { n: -r.n, d: r.d })),
+                            2 => (format!("-+{name}({arg})"), v.map(|r| Rat { n: -r.n, d: r.d })),
+                            _ => (format!("{name}({arg})"), v),
+                        };
                     }
                 }
             }
@@ -142,6 +149,11 @@ fn typed(rng: &mut StdRng) -> Value {
             steps.push(json!({"act": "partial", "i": seed_i, "k": k}));
             let first = next;
             next += 1;
+            if rng.random_bool(0.4) {
+                // the printed derivative must parse back to the same function (C12)
+                steps.push(json!({"act": if rng.random_bool(0.5) { "reparse" } else { "serde" }, "i": first}));
+                next += 1;
+            }
             if rng.random_bool(0.5) {
                 // a derivative of a derivative, also after a conversion
                 let kk = rng.random_range(0..nv);
@@ -182,7 +194,8 @@ fn poly(rng: &mut StdRng) -> Value {
 }
 
 fn seed_texts(rng: &mut StdRng) -> Vec<String> {
-    let pool = ["x", "y", "x+y", "2*x", "x*y-1", "z", "0", "1", "0.0", "1.0", "sin(x)", "x^2", "(x+1)/(y-2)", "3", "-x", "a*b", "x-x", "2/4", "{v w}+1", "abs(y)", "x/y/z"];
+    let pool = ["x", "y", "x+y", "2*x", "x*y-1", "z", "0", "1", "0.0", "1.0", "sin(x)", "x^2", "(x+1)/(y-2)", "3", "-x", "a*b", "x-x", "2/4", "{v w}+1", "abs(y)", "x/y/z",
+                "sin(cos(x))", "-sin(x*y)", "+cos(ln(z))", "exp(sin(cos(y)))", "tan(x)*0", "z*0", "0*(a+b)", "sin(y)", "sqrt(exp(x))"];
     let n = rng.random_range(2..=6);
     (0..n).map(|_| pool.choose(rng).unwrap().to_string()).collect()
 }
